@@ -387,7 +387,10 @@ def main():
                        "stub contracts as in C04/C05 (struct, utf-8, str(int), zlib)"]
     run.outside = ["request/response conversation with a reference peer is covered per handler under C01/C02/C07 harnesses"]
     run.obligation("O1_encode_shortest", "real dump(v) == published shortest-form encoding, all length classes",
-                   ob_encode_refsplit(run, interp, 2 if thorough else 1, 2))
+                   ob_encode_refsplit(run, interp, 1, 3 if thorough else 2))
+    if thorough:
+        # nesting 2 with arity 2 is several million paths; the thorough tier widens (arity 3) and deepens (nesting 2, arity 1) separately
+        run.obligation("O1_encode_shortest_deep", "the same for nesting depth 2 (containers of one element)", ob_encode_refsplit(run, interp, 2, 1))
     run.obligation("O2_decode_conforming", "real load() accepts every conforming encoding (incl. non-shortest length forms) and reads the same value",
                    ob_decode_conforming(run, interp))
     run.obligation("O3_frame", "Channel.send bytes == published frame; receiver reads the same packets",
